@@ -13,7 +13,8 @@ DRIVER = 'MainGen.lean'
 REQUIRED_THEOREMS = ['Usid.C14.generated_assign_eq_hand', 'Usid.C14.generated_window_eq_hand',
                      'Usid.C14.ranges_partition', 'Usid.C14.ranges_cover_disjoint',
                      'Usid.C14.ranks_concat_eq_pending', 'Usid.C14.rank_batches', 'Usid.C14.socket_master']
-RULE = ('random (N positions, completion mask, rank count R, batch limit); the real compute() is run once per '
+RULE = ('random (N positions up to 40, completion mask, rank count R, batch limit - common to all ranks or DIFFERENT per rank, as on '
+        'sockets with different memory); the real compute() is run once per '
         'simulated rank on its own copy of the file; non-trivial = at least two ranks or a non-contiguous mask; '
         'plus processor-name lists for group_ranks_by_socket run against a fake MPI object')
 TRUSTED = ['py2lean translator grammar/attribute table (its output is what the theorems are about)',
@@ -46,8 +47,22 @@ def generate(seed, tier):
             mask[rng.randrange(n)] = 0
         else:
             mask = [1] * n
-        cases.append({'kind': 'ranks', 'n': n, 'm': rng.randint(1, 3), 'mask': mask,
-                      'size': rng.randint(1, 9), 'batch': rng.randint(1, n + 2), 'fresh': kind == 'zero' and rng.random() < 0.5})
+        size, batch = rng.randint(1, 9), rng.randint(1, n + 2)
+        case = {'kind': 'ranks', 'n': n, 'm': rng.randint(1, 3), 'mask': mask,
+                'size': size, 'batch': batch, 'fresh': kind == 'zero' and rng.random() < 0.5}
+        if rng.random() < 0.35:
+            # ranks on sockets with different memory get different batch limits (each rank derives its own)
+            case['batches'] = [rng.randint(1, max(1, n // 2)) for _ in range(size)]
+        cases.append(case)
+    if True:
+        # many pending positions per rank and small, differing batch limits
+        for i in range({'quick': 12, 'thorough': 120, 'search': 80}[tier]):
+            rng = derived_rng(seed, 'C14b', i)
+            n = rng.randint(12, 40)
+            size = rng.randint(2, 4)
+            mask = [0] * n if rng.random() < 0.6 else [1 if rng.random() < 0.2 else 0 for _ in range(n)]
+            cases.append({'kind': 'ranks', 'n': n, 'm': 1, 'mask': mask, 'size': size, 'batch': rng.randint(2, 6),
+                          'batches': [rng.randint(2, 6) for _ in range(size)], 'fresh': False})
     return cases
 
 
@@ -105,7 +120,7 @@ def run_impl(inp, work):
         with h5py.File(path, 'r+') as f:
             with quiet(), tr.installed():
                 p = RowProc(f['G/main'], parms={'a': 1}, cores=1)
-                p._max_pos_per_read = inp['batch']
+                p._max_pos_per_read = inp['batches'][r] if inp.get('batches') else inp['batch']
                 p.mpi_rank, p.mpi_size = r, inp['size']
                 grp = p.compute()
             status = [int(x) for x in grp['completed_positions'][()]]
@@ -149,8 +164,9 @@ def oracle(inp, obs):
             fails.append('own-range: rank %d processed %s but marked %s' % (i, flat, r['marks']))
         if sorted(r['calls']) != sorted(flat):
             fails.append('own-range-calls: rank %d map-function calls differ from its range' % i)
-        if any(len(b) > inp['batch'] for b in r['batches']):
-            fails.append('batch-limit: rank %d has a batch larger than %d' % (i, inp['batch']))
+        lim = inp['batches'][i] if inp.get('batches') else inp['batch']
+        if any(len(b) > lim for b in r['batches']):
+            fails.append('batch-limit: rank %d has a batch larger than %d' % (i, lim))
         if not r['results_ok'] or not r['untouched']:
             fails.append('results: rank %d wrote a wrong result or touched a position outside its range' % i)
         # a rank must WRITE (status and results) only inside its own range: other ranks write there concurrently
@@ -173,8 +189,11 @@ def model_requests(inp):
         return [{'op': 'proc.socket', 'names': inp['names']}]
     pend = sum(1 for s in inp['mask'] if s == 0)
     reqs = [{'op': 'proc.ranks', 'status': inp['mask'], 'size': inp['size'], 'batch': inp['batch']}]
+    if inp.get('batches'):
+        reqs[0]['batches'] = inp['batches']
     for r in range(inp['size']):
-        reqs.append({'op': 'gen.assign', 'jobs': pend, 'rank': r, 'size': inp['size'], 'batch': inp['batch']})
+        reqs.append({'op': 'gen.assign', 'jobs': pend, 'rank': r, 'size': inp['size'],
+                     'batch': inp['batches'][r] if inp.get('batches') else inp['batch']})
     return reqs
 
 
